@@ -32,7 +32,8 @@ LEVEL_NOTE = ("Modelled and verified: dereferencing/resolution (models.py Alias.
               "and the None>int TypeError are evaluated directly on the implementation and attributed to known findings C06-F1/F2 by "
               "exception type + raising site + graph predicate); the heap handed to the model is abstracted after wildcard expansion has "
               "stabilised. C06_fixpoint_partial is partial (conditional on a quiet pass; the unconditional statement modulo the known gaps "
-              "is not proved, only checked at run time on every explored heap). Trusted: Coq kernel, extraction, the tree->heap abstraction "
+              "is not proved, only checked at run time on every explored heap). Side-loading during resolution (external != False) is outside the "
+              "model: the fixpoint is evaluated directly there (known finding C06-F5, attributed from a trace of the loop). Trusted: Coq kernel, extraction, the tree->heap abstraction "
               "(Snapshot) and the comparison code in this module.")
 MODEL = ("Model.C06_alias", "run_C06")
 COQ_TARGETS = ["Proofs/C06_alias.vo"]
@@ -44,13 +45,16 @@ RULE = ("import graphs written as packages under the scratch directory and loade
         "import [as], wildcards, __all__, a class importing in its body), with and without wildcards; "
         "(4) random graphs over packages p, q, r loaded in every order of every 2- or 3-subset into one collection (quick: 4 orders each), "
         "with or without resolve_aliases between loads; then resolve, resolve, dereference every alias, resolve (every third case first "
-        "dereferences lazily one alias at a time, recording links after each). non-trivial = at least one alias or an escape; "
+        "dereferences lazily one alias at a time, recording links after each); "
+        "(5) implementation only: random wildcard-free graphs over packages p, _p, q of which one is loaded and the others are side-loaded "
+        "during resolve_aliases(external=True / None), three calls, with resolve_module_aliases/load traced through the public methods. "
+        "non-trivial = at least one alias or an escape; "
         "distinct by canonical case value")
 TRUSTED = ["abstraction: Snapshot walks collection.members / Object.members and reads Alias._target, target_path, _passed_through, name; "
            "aliases manufactured by Alias.members are encoded as (path, member) references",
            "known-finding attribution of C06-F3/F4 is cross-checked against the extracted model's direct / chains_complete / unique_paths verdicts"]
-ASSUMPTIONS = ["packages are static source trees with __init__.py (no namespace packages, stubs, inspection or external loading)",
-               "resolve_aliases is exercised with implicit=True, external=False"]
+ASSUMPTIONS = ["packages are static source trees with __init__.py (no namespace packages, stubs or inspection)",
+               "model correspondence uses resolve_aliases(implicit=True, external=False); external=True/None only in the implementation-only side-loading stream"]
 
 ALARM_S = 4
 
@@ -669,16 +673,34 @@ def run_external(ctx, files, loads, external, label):
     ctx.observe("stream", label)
     loader = griffe.GriffeLoader(search_paths=[root], allow_inspection=False)
     calls = []
+    trace = []                                       # ("V", module, #resolved) top-level visits, ("L", package) side-loads
+    orig_rma, orig_load = loader.resolve_module_aliases, loader.load
 
-    def fail(what, detail):
-        ctx.property_failure(case, {"side_loading": what, **detail}, finding=None)
+    def rma(obj, *, implicit=False, external=None, seen=None, load_failures=None):
+        if seen is None:
+            trace.append(("S", obj.path))
+        res = orig_rma(obj, implicit=implicit, external=external, seen=seen, load_failures=load_failures)
+        if seen is None:
+            trace.append(("V", obj.path, len(res[0])))
+        return res
+
+    def load(*a, **k):
+        trace.append(("L", str(a[0]) if a else None))
+        return orig_load(*a, **k)
+
+    def fail(what, detail, finding=None):
+        ctx.property_failure(case, {"side_loading": what, **detail}, finding=finding)
 
     for pkg in loads:
         r = guarded(lambda: loader.load(pkg, try_relative_path=False))
         if r[0] != "ok":
             return fail("load raised", {"outcome": r[:3]})
     snap = None
+    unreached = []
+    loader.resolve_module_aliases, loader.load = rma, load      # public methods, looked up on the instance by resolve_aliases
     for k in range(3):
+        if k == 1:
+            first_trace = list(trace)
         r = guarded(lambda: loader.resolve_aliases(implicit=True, external=external))
         if r[0] != "ok":
             return fail(f"resolve_aliases call {k + 1} raised", {"outcome": r[:3]})
@@ -695,14 +717,26 @@ def run_external(ctx, files, loads, external, label):
                 if tgt and d[1][0] != "ok":
                     fail("resolved alias does not dereference", {"alias": path, "outcome": d[1]})
                 if not tgt and d[1][0] == "ok" and in_tree(snap, i):
-                    fail("alias left unresolved although it resolves (fixpoint not reached)", {"alias": path, "to": d[1]})
+                    unreached.append(path)
     ctx.observe("side_loaded_packages", len(calls[0][3]) - len(loads))
     if calls[0][0] != calls[1][0] or calls[0][2] != calls[1][2] or calls[0][3] != calls[1][3] or calls[1][1] > 2:
         changed = [b[0] for a, b in zip(calls[0][2], calls[1][2]) if a != b]
+        # known finding C06-F5, exactly: the last iteration of the first call still made progress (side-loaded a package or
+        # resolved an alias) but produced the same unresolved set as the one before, so the loop stopped
+        starts = [n for n, ev in enumerate(first_trace) if ev[0] == "S" and ev[1] == loads[0]]
+        last = first_trace[starts[-1]:] if starts else []
+        progress = any(ev[0] == "L" for ev in last) or sum(ev[2] for ev in last if ev[0] == "V") > 0
+        fid = "C06-F5" if (progress and len(starts) == calls[0][1] and len(calls[0][3]) > len(loads)) else None
+        ctx.observe("side_loading_fixpoint", fid or "unclassified")
         fail("second resolve_aliases is not a no-op", {"first": calls[0][:2], "second": calls[1][:2], "links_changed": changed,
-                                                        "collection": [calls[0][3], calls[1][3]]})
+                                                        "collection": [calls[0][3], calls[1][3]],
+                                                        "last_iteration_of_first_call": last}, finding=fid)
+    elif unreached:
+        fail("aliases left unresolved after two calls although they resolve", {"aliases": unreached})
     if any(p for st in (calls[0][2], calls[1][2], calls[2][2]) for _, _, p in st):
         fail("passed-through flag left set", {})
+    if calls[1][0] != calls[2][0] or calls[1][3] != calls[2][3]:
+        fail("third resolve_aliases differs from the second", {"second": calls[1][:2], "third": calls[2][:2]})
 
 
 # --------------------------------------------------------------------------------------------------------------------
@@ -721,6 +755,15 @@ def replay_witnesses(ctx):
     for fid, f in ctx.known.items():
         files = f.get("witness", {}).get("files") or WITNESSES.get(fid)
         if not files:
+            continue
+        if fid == "C06-F5":
+            import griffe
+            write_packages(files, root)
+            loader = griffe.GriffeLoader(search_paths=[root], allow_inspection=False)
+            w = f["witness"]
+            r = guarded(lambda: [loader.load(pk, try_relative_path=False) for pk in w["loads"]] and
+                        [loader.resolve_aliases(implicit=True, external=w["external"])[0] for _ in range(2)])
+            ctx.witness(fid, r[0] == "ok" and r[1][0] != r[1][1])
             continue
         rec = run_impl(files, f.get("witness", {}).get("loads", ["p"]), root)
         if fid in ("C06-F1", "C06-F2"):
